@@ -257,13 +257,13 @@ pub fn process(
         }
         Operation::Movw => {
             let d = op_args[0].get_r8(constants)?;
-            if d.number() < 16 && d.number() % 2 != 0 {
+            if d.number() % 2 != 0 {
                 bail!("{:?} can only use a even numbered for Rd", op);
             }
             opcode |= (d.number() / 2) << 4;
 
             let r = op_args[1].get_r8(constants)?;
-            if r.number() < 16 && r.number() % 2 != 0 {
+            if r.number() % 2 != 0 {
                 bail!("{:?} can only use a even numbered for Rr", op);
             }
             opcode |= r.number() / 2;
